@@ -203,6 +203,62 @@ def getCFilter (hs : Hashing) (s : State) (c : Call) : Outcome :=
             | none => ⟨s1, .errFetchFailed, .nowhere, hp.2, rg⟩
             | some r => ⟨s1, .ret r.fid, .network, hp.2, rg⟩
 
+/-! ### a reorganisation between the by-hash and the by-height lookups
+
+`prepareCFiltersQuery` learns the HEIGHT of the requested block from
+`BlockHeaders.FetchHeader(hash)` and reads everything else (best block, stop
+hash, block headers, filter headers) by height afterwards, without a lock shared
+with the block manager.  `Reorg` is the chain those later reads see: the same
+blocks up to `fork`, other blocks (named `altBase + height`) above it. -/
+
+def altBase : Nat := 500000
+
+structure Reorg where
+  fork : Nat            -- last common height
+  tip  : Nat            -- block tip of the new chain
+  fhs  : List Nat       -- committed filter headers of the new chain, index = height
+deriving Repr
+
+/-- the block at height `h` of the chain read afterwards -/
+def Reorg.idAt (rg : Reorg) (h : Nat) : Nat := if h > rg.fork then altBase + h else h
+
+def Reorg.chain (rg : Reorg) : Chain := { tip := rg.tip, fhs := rg.fhs }
+
+/-- the query that `prepareCFiltersQuery` builds when the reorganisation hits
+right after `FetchHeader(hash)`: the height is that of the requested block on
+the old chain, range, headers and the header index are those of the new chain;
+`target` is still the requested hash. -/
+def prepareReorg (c : Chain) (rg : Reorg) (target : Nat) (bt : Batch) (maxBatch : Int) : Except PrepErr Query :=
+  if target > c.tip then .error .unknownBlock
+  else match prepare rg.chain target bt maxBatch with
+    | .error e => .error e
+    | .ok q => .ok { q with index := q.index.map (fun p => (rg.idAt p.1, p.2)) }
+
+/-- `GetCFilter` with that interleaving; afterwards the stores hold the new chain -/
+def getCFilterReorg (hs : Hashing) (s : State) (rg : Reorg) (c : Call) : Outcome :=
+  if c.regular = false then ⟨s, .errType, .nowhere, [], none⟩
+  else
+    match s.store.cache.step (.get c.target) with
+    | (cache', .val v) => ⟨{ s with store := { s.store with cache := cache' } }, .ret v, .cache, [], none⟩
+    | (cache', _) =>
+      let st0 : Store := { s.store with cache := cache' }
+      match lookup st0.db c.target with
+      | some fid => ⟨{ s with store := st0 }, .ret fid, .db, [], none⟩
+      | none =>
+        match prepareReorg s.chain rg c.target c.batch c.maxBatch with
+        | .error _ => ⟨{ chain := rg.chain, store := st0 }, .errPrepare, .nowhere, [], none⟩
+        | .ok q =>
+          let hp := feed hs c.cont (q, st0) c.resps
+          let s1 : State := { chain := rg.chain, store := hp.1.2 }
+          let rg' := some (q.start, q.stop)
+          match c.verdict with
+          | .quit => ⟨s1, .errQuit, .nowhere, hp.2, rg'⟩
+          | .err => ⟨s1, .errQuery, .nowhere, hp.2, rg'⟩
+          | .nil =>
+            match hp.1.1.found with
+            | none => ⟨s1, .errFetchFailed, .nowhere, hp.2, rg'⟩
+            | some r => ⟨s1, .ret r.fid, .network, hp.2, rg'⟩
+
 inductive Op where
   | get (c : Call)
   /-- the filter headers from height `h` on are rolled back and committed anew
